@@ -3227,7 +3227,7 @@ static Token *function(Token *tok, Type *basety, VarAttr *attr) {
     fn->is_inline = attr->is_inline;
   }
 
-  fn->is_root = !(fn->is_static && fn->is_inline);
+  fn->is_root = fn->is_root || !(fn->is_static && fn->is_inline);
 
   if (consume(&tok, tok, ";"))
     return tok;
